@@ -139,6 +139,9 @@ type Config struct {
 	// CloseScript, if set, replaces the default closing of both ends.
 	CloseScript func(r *Run)
 	RecvSlow func(ep string, id int) time.Duration
+	// SendLag: after the handshake the transport's send calls of the client
+	// / the server return only this long after the packet went on the link.
+	SendLag [2]time.Duration
 }
 
 // Run is the state of one execution.
